@@ -382,6 +382,7 @@ def standard_check(run, prop, scenarios, meta, coq_oracles, py_oracle=None, coq_
     hashes, point arithmetic); pair_oracle(scenarios, outs) -> list of (payload) relational failures."""
     common.run_translator("status")
     common.run_translator("ceremony_skeleton")
+    common.run_translator("client_skeleton")
     bad = common.hygiene_gate()
     if bad:
         raise common.Tie("hygiene gate: " + "; ".join(bad))
@@ -450,7 +451,7 @@ def standard_check(run, prop, scenarios, meta, coq_oracles, py_oracle=None, coq_
     run.cov.update({
         "obligations": n_lem, "discharged": n_lem,
         "checker_cmd": "make -C coq theories/Props/%s.vo (coqc 8.16.1, full .vo build) + hygiene gate + Print Assumptions" % prop,
-        "trusted_base": ["Coq 8.16.1 kernel, vm_compute", "translators/status.py", "translators/ceremony_skeleton.py (source order of calls; used by the properties whose Props file states a source-order theorem)",
+        "trusted_base": ["Coq 8.16.1 kernel, vm_compute", "translators/status.py", "translators/ceremony_skeleton.py and translators/client_skeleton.py (source order of calls; used by the properties whose Props file states a source-order theorem)",
                          "correspondence: harness/src/bin/ceremony.rs + harness/src/instr.rs (instrumented CredentialStore / UserValidationMethod), driver/ceremony.py (term printer, Python P-256/ECDSA/SHA-256/HMAC oracles)",
                          "each .await on a trait object = one effect call (async_trait desugaring); rand/p256/sha2/hmac crates are answers of internal events",
                          "Print Assumptions: %d closed under the global context, axioms: %s" % (assum["closed"], assum["with_allowed_axioms"] or "none")],
